@@ -30,7 +30,7 @@ def functions(ns):
 def instantiations(tier, seed):
     rng = random.Random(seed * 1709 + 3)
     out = []
-    skels = F.pl_family(tier, seed, n_quick=14, n_thorough=250)
+    skels = F.pl_family(tier, seed, n_quick=30, n_thorough=250)
     skels += [F.AL(0, F.a(), F.b(), id="A", sign=1), F.AL(0, F.a(), F.b(), sign=1), F.N("Not", F.AM(-1, F.c(), F.d())),
               F.N("Imply", F.N("All", F.a(), F.b()), F.c(), id="R"), F.N("XNor", F.N("All", F.a(), F.b(), id="B"), F.N("Any", F.c(), F.d(), id="C")),
               F.N("All", F.N("Any", F.a()), F.N("All", F.b()), F.AM(0, F.c()), id="A")]
@@ -47,7 +47,7 @@ def instantiations(tier, seed):
         out.append({"part": "plog", "model": m, "kind_": "plog", "warm": k % 2 == 1})
         if k % 2 == 0 or tier == "thorough":
             out.append({"part": "plog", "model": m, "kind_": "plog", "warm": False, "siblings": True})
-    for k, c in enumerate(cfg.cfg_family(tier, seed, n_quick=6, n_thorough=100)):
+    for k, c in enumerate(cfg.cfg_family(tier, seed, n_quick=12, n_thorough=100)):
         out.append({"part": "plog", "model": c, "kind_": "cfg", "warm": k % 2 == 0})
         out.append({"part": "plog", "model": c, "kind_": "cfg", "warm": False, "siblings": True})
         c2 = copy.deepcopy(c)
